@@ -425,6 +425,10 @@ def _check_fit(i, spec, fit, res, axes, case, e):
             free = np.array([nm not in fit._fitter.fixed_parameters for nm in e["names"]])
             if not ref.fam.linear and np.any(ee[free] > 0.3 * np.abs(ev[free])):
                 e["band_loose"] = True  # kafe2's numerical parameter derivative is only accurate to ~1 % for parameters that are not determined
+            if not ref.fam.linear and np.any(ee[free] > np.abs(ev[free])):
+                band = None  # uncertainty larger than the value: the derivative step (1 % of the uncertainty) leaves the region where the model is smooth
+                e["band_undetermined"] = True
+        if band is not None:
             J = ref.fam.jac(bx, pc) * (ref.y_scale or 1.0)  # canonical order
             order = [ref.canon.index(nm) for nm in e["names"]]
             J = J[order]
